@@ -766,7 +766,7 @@ impl<'a> VisitMut for Norm<'a> {
                         }
                     }
                 }
-                let mapped = self.unit.method_map.iter().find(|(k, _)| k == &name).map(|(_, v)| v.clone());
+                let mapped = self.spec.method_map.iter().chain(self.unit.method_map.iter()).find(|(k, _)| k == &name).map(|(_, v)| v.clone());
                 if let Some(to) = mapped {
                     mc.method = Ident::new(&to, mc.method.span());
                     mc.turbofish = None;
